@@ -3,6 +3,9 @@ CONSTANTS
   NG = 2
   MAXCALLS = 5
   MAXFIT = 2
+  NP = 1
+  E = 3
+  LAST_WINS = FALSE
   DROP_SETT = TRUE
 INVARIANT NoBad
 INVARIANT GvUsesOwnTranslation
@@ -11,5 +14,10 @@ INVARIANT TolRestored
 INVARIANT TolOneOnlyInSimplex
 INVARIANT SavedWithOwn
 INVARIANT EachGrainOncePerPass
+INVARIANT BestOwner
+INVARIANT StoredError
+INVARIANT OrderIndependent
+INVARIANT IndIsOwned
+INVARIANT SavedRowsDisjoint
 PROPERTY OnlyCurrentGrainMoves
 CHECK_DEADLOCK FALSE
